@@ -160,6 +160,9 @@ def run_property(prop, tier, only_rule=None, quiet=False):
         db, info = run.extract(tus, mod.FILES, getattr(mod, "NAMES", "."), release=True, max_inst=mi)
         ctx.db = db
         ctx.info = info
+        if info.get("tus_without_matching_functions"):
+            raise AnalysisBroken("translation unit(s) contributed no function at all (wrong flags or a vanished anchor?): %s"
+                                 % ", ".join(info["tus_without_matching_functions"]))
         if mi:
             ctx.info["max_class_specializations_per_template"] = mi
         if getattr(mod, "NEED_BELIEF", False):
